@@ -114,13 +114,80 @@ ExpectedConcatLines(childMaps, texts) ==
         LET c == {i \in 1..Len(all) : all[i][1] = ln /\ all[i][2][1]}
         IN IF c = {} THEN LineOnly(Unmapped) ELSE all[Min(c)][2]]
 
+(* C06 for ReplaceSource, with the OBSERVED inner stream as the definition  *)
+(* of "inner segment".  ic / oc range over chunks [x, gl, gc, a].           *)
+ByteIndex(chunks) ==    \* per byte: <<chunk number, offset inside the chunk>>
+  Concat([j \in 1..Len(chunks) |-> [i \in 1..Len(chunks[j].x) |-> <<j, i - 1>>]])
+
+ContentMatches(ct, line, col, expected) ==
+  LET ls == Lines(ct)
+  IN /\ line >= 1 /\ line <= Len(ls)
+     /\ col + Len(expected) <= Len(ls[line])
+     /\ SubSeq(ls[line], col + 1, col + Len(expected)) = expected
+
+(* the column an output piece may carry when it starts d bytes into ic      *)
+ColOK(col, ic, d) ==
+  LET col0 == ic.a.c
+  IN IF d = 0 \/ ~ic.a.hc THEN col = col0
+     ELSE IF ContentMatches(ic.a.ct, ic.a.l, col0, Take(ic.x, d)) THEN col = col0 + d
+     ELSE col >= col0 /\ col <= col0 + d
+
+ReplaceKeepsAttribution(innerChunks, outChunks, repls) ==
+  LET innerText == StreamText(innerChunks)
+      n == Len(innerText)
+      prov == SpliceProv(n, repls)
+      ii == ByteIndex(innerChunks)
+      oi == ByteIndex(outChunks)
+      byteOK(b) ==
+        LET a == outChunks[oi[b][1]].a
+            p == prov[b]
+        IN IF p.k = "in" THEN
+             LET ic == innerChunks[ii[p.j][1]]
+                 d == ii[p.j][2]
+                 p0 == prov[b - oi[b][2]]      \* first byte of the output chunk
+                 dp == IF p0.k = "in" /\ ii[p0.j][1] = ii[p.j][1] THEN ii[p0.j][2] ELSE d
+             IN /\ a.m = ic.a.m
+                /\ a.m => /\ <<a.f, a.hc, a.ct, a.l, a.hn, a.n>>
+                              = <<ic.a.f, ic.a.hc, ic.a.ct, ic.a.l, ic.a.hn, ic.a.n>>
+                          /\ ColOK(a.c, ic, dp)
+           ELSE
+             IF p.at >= n THEN ~a.m
+             ELSE
+               LET ic == innerChunks[ii[p.at + 1][1]]
+                   d == ii[p.at + 1][2]
+                   r == repls[p.r]
+                   firstLine == \A x \in 1..(p.i - 1) : r.c[x] # NL
+                   expName == IF ~firstLine THEN <<FALSE, <<>>>>
+                              ELSE IF r.n # <<>> THEN <<TRUE, r.n[1]>>
+                              ELSE <<ic.a.hn, ic.a.n>>
+               IN /\ a.m = ic.a.m
+                  /\ a.m => /\ <<a.f, a.hc, a.ct, a.l>> = <<ic.a.f, ic.a.hc, ic.a.ct, ic.a.l>>
+                            /\ ColOK(a.c, ic, d)
+                            /\ <<a.hn, a.n>> = expName
+  IN /\ Len(prov) = Len(StreamText(outChunks))
+     /\ \A b \in 1..Len(prov) : byteOK(b)
+
+(* the property's domain: a file name shared between children carries the   *)
+(* same content everywhere                                                  *)
+FileEntries(optmap) ==
+  IF optmap = <<>> THEN {}
+  ELSE LET m == optmap[1]
+       IN {<<FileOf(m, i - 1), HasContent(m, i - 1), ContentOf(m, i - 1)>> :
+             i \in 1..Len(m.sources)}
+SharedNamesAgree(optmaps) ==
+  LET all == UNION {FileEntries(optmaps[k]) : k \in 1..Len(optmaps)}
+  IN \A x \in all : \A y \in all : x[1] = y[1] => x = y
+
 LawChecks(r, st) ==
   CASE r.law = "same" /\ AsciiConsistent(st.heap[r.a]) /\ AsciiConsistent(st.heap[r.b]) ->
          {<<"C13", "same_text">>, <<"C13", "same_attribution_columns">>,
           <<"C13", "same_attribution_lines">>}
-    [] r.law = "concat_children" /\ AsciiConsistent(st.heap[r.r]) ->
+    [] r.law = "concat_children" /\ AsciiConsistent(st.heap[r.r])
+         /\ SharedNamesAgreeInTree(st.heap[r.r]) ->
          {<<"C06", "concat_keeps_child_attribution">>,
           <<"C06", "concat_lines_first_mapped_piece">>}
+    [] r.law = "replace_inner" /\ AsciiConsistent(st.heap[r.r]) ->
+         {<<"C06", "replace_keeps_inner_attribution">>}
     [] OTHER -> {}
 
 LawHolds(c, r, st) ==
@@ -144,6 +211,11 @@ LawHolds(c, r, st) ==
                  LET own == ByteAttrsOfOptMap(SeenMap(st, r.children[k], TRUE), texts[k])
                  IN \A i \in 1..Len(texts[k]) :
                       Full(whole[offs[k] + i]) = Full(own[i])
+    [] c = <<"C06", "replace_keeps_inner_attribution">> ->
+         ReplaceKeepsAttribution(
+           StreamChunks(st.obs[<<r.inner, "stream", TRUE, FALSE>>].ev),
+           StreamChunks(st.obs[<<r.r, "stream", TRUE, FALSE>>].ev),
+           st.heap[r.r].repls)
     [] c = <<"C06", "concat_lines_first_mapped_piece">> ->
          LET n == Len(r.children)
              texts == [k \in 1..n |-> Seen(st, r.children[k], "source").t]
@@ -288,5 +360,14 @@ KF(c, r, st) ==
                /\ OnlyColumnsDiffer(ByteAttrsOfOptMap(r.out.map, StreamText(chunks)),
                                     ByteAttrsOfStream(chunks))
               THEN "cached-beneath-replace-column" ELSE ""
+    [] c = <<"C13", "same_attribution_columns">> ->
+         LET text == Seen(st, r.a, "source").t
+             tb == st.heap[r.b]
+         IN IF /\ tb.k = "replace" /\ Len(tb.repls) >= 1
+               /\ \A i \in 1..Len(tb.repls) :
+                    tb.repls[i].s = tb.repls[i].e /\ tb.repls[i].c = <<>>
+               /\ OnlyColumnsDiffer(ByteAttrsOfOptMap(SeenMap(st, r.a, TRUE), text),
+                                    ByteAttrsOfOptMap(SeenMap(st, r.b, TRUE), text))
+              THEN "noop-replacement-splits-chunk" ELSE ""
     [] OTHER -> ""
 =============================================================================
